@@ -145,6 +145,8 @@ Definition track_local (t : tok) : bool :=
   | TCC _ _ | TPitchBend _ _ | TRpnCmd _ _ _ _               (* controller / bend events on the current track *)
   | TRandom _ _ | TOnNote _ _ _ | TVOnTime _ | TCCOnTime _ _ | TCCOnNote _ _ | TCCOnNoteWave _ _ | TCCFreq _
   | TPBOnTime _ _ | TDecresc _ _ _ => true                   (* reservations of the current track *)
+  | TMetaText _ _ | TPort _ => true                          (* a meta event on the current track *)
+  | TSysexReset _ | TSysExCommand _ _ | TGSEffect _ _ _ => true   (* a system exclusive event on the current track (SysEx may write a log entry) *)
   | _ => false
   end.
 
@@ -225,6 +227,8 @@ Proof.
   first
   [ solve [intros E; injection E as <-; frame_leaf]
   | solve [unfold add_events; intros E; injection E as <-; frame_leaf]
+  | solve [destruct (_ && _); [|discriminate]; unfold add_events; intros E; injection E as <-; frame_leaf]   (* guarded arms *)
+  | solve [intros E; apply exec_gs_effect_cases in E; destruct E as (evs & _ & ->); unfold add_events; frame_leaf]
   | solve [apply exec_note_frame]
   | solve [apply exec_note_n_frame]
   | solve [unfold exec_rest, exec_harmony_end, exec_voice;
@@ -340,6 +344,10 @@ Proof.
   [ solve [apply exec_note_indep; exact Hs]
   | solve [apply exec_note_n_indep; exact Hs]
   | solve [unfold add_events; rewrite ?Hct; indep_leaf Hs]
+  | solve [destruct (_ && _); [|reflexivity]; unfold add_events; rewrite ?Hct; indep_leaf Hs]   (* guarded arms *)
+  | solve [unfold exec_gs_effect; rewrite ?Hct; cbn [s_device s_set_tracks];
+           match goal with |- context [Cmd.cmd_gs_effect ?a ?b ?c ?d ?e] => destruct (Cmd.cmd_gs_effect a b c d e) end;
+           cbn [bind lift]; try reflexivity; unfold add_events; rewrite ?Hct; indep_leaf Hs]
   | solve [rewrite (cc_arm_eq s _ _ (proj1 Hs)), (cc_arm_eq (s_set_tracks s l2) _ _ (proj1 (proj2 Hs))); rewrite ?Hct; indep_leaf Hs]
   | solve [unfold exec_rest, exec_harmony_end, exec_voice; rewrite ?Hct;
            cbn [s_timebase s_octave_once s_v_add s_q_add s_harmony_flag s_harmony_time s_harmony_events s_set_tracks];
@@ -548,6 +556,10 @@ Proof.
   first
   [ solve [hnorm_leaf F]
   | solve [unfold add_events, cur_track; pj; hnorm_leaf F]
+  | solve [destruct (_ && _); [|reflexivity]; unfold add_events, cur_track; pj; hnorm_leaf F]   (* guarded arms *)
+  | solve [unfold exec_gs_effect, cur_track; pj; cbn [s_device s_set_harmony s_set_harmony_flag s_set_harmony_time s_set_harmony_events];
+           match goal with |- context [Cmd.cmd_gs_effect ?a ?b ?c ?d ?e] => destruct (Cmd.cmd_gs_effect a b c d e) end;
+           cbn [bind]; try reflexivity; unfold add_events, cur_track; pj; hnorm_leaf F]
   | solve [apply exec_note_hnorm; exact F]
   | solve [apply exec_note_n_hnorm; exact F]
   | solve [change (cur_track (s_set_harmony s false 0 (s_harmony_events s))) with (cur_track s);
